@@ -88,6 +88,12 @@ def run_events(c, hb, files, ngen, size, variants=2, maxnodes=5000, seed=None):
                 pass
     if rc != 0:
         c.obligation("harness-run:walker-events", False, out[-2000:])
+    # the fixed deeply nested file (harness/cmd/walker/deep.go) must have been walked: it is an input of the oracle on every run
+    deep = [o for o in obs if o.get("k") == "file" and o.get("name") == "deepnest.go"]
+    if not deep or deep[0].get("err") or deep[0].get("nodes", 0) < 3000:
+        c.obligation("harness-run:walker-events-deep-file", False, "the deeply nested file was not walked: %s" % [(o.get("err"), o.get("nodes")) for o in deep])
+    else:
+        c.coverage["deepest_node_path_walked"] = max(c.coverage.get("deepest_node_path_walked", 0), max(len(e.get("path") or []) for e in deep[0]["events"]))
     return obs
 
 
